@@ -358,25 +358,33 @@ func VerifC17WAL() {
 		h := make([]byte, WALFrameHeaderSize)
 		binary.BigEndian.PutUint32(h[0:], pgno)
 		binary.BigEndian.PutUint32(h[4:], commit)
-		s1 := m.salt1
+		s1, s2 := m.salt1, m.salt2
 		validity := rt.Choose("frame.validity", 3)
-		if validity == 1 {
+		if validity == 1 { // either salt word differs from the header's
 			d := rt.U32("saltdelta")
 			rt.Assume(d != 0)
-			s1 += d
+			if rt.Choose("salt.word", 2) == 0 {
+				s1 += d
+			} else {
+				s2 += d
+			}
 		}
 		binary.BigEndian.PutUint32(h[8:], s1)
-		binary.BigEndian.PutUint32(h[12:], m.salt2)
+		binary.BigEndian.PutUint32(h[12:], s2)
 		c1, c2 = verifWALSum(m.big, c1, c2, h[:8])
 		c1, c2 = verifWALSum(m.big, c1, c2, data)
-		k1 := c1
-		if validity == 2 {
+		k1, k2 := c1, c2
+		if validity == 2 { // either checksum word is off
 			d := rt.U32("sumdelta")
 			rt.Assume(d != 0)
-			k1 += d
+			if rt.Choose("sum.word", 2) == 0 {
+				k1 += d
+			} else {
+				k2 += d
+			}
 		}
 		binary.BigEndian.PutUint32(h[16:], k1)
-		binary.BigEndian.PutUint32(h[20:], c2)
+		binary.BigEndian.PutUint32(h[20:], k2)
 		wal = append(append(wal, h...), data...)
 		if validity != 0 {
 			valid = false // everything from the first invalid frame on is ignored
